@@ -163,6 +163,36 @@ RXV_SUBCOMMAND(c09) {
 				}
 			}
 		}
+		// edge immediates: a generated program's 32-bit immediates (IADD_C7/8/9, IXOR_C7/8/9) and reciprocals are free values - any of
+		// them is produced by some key - but a given key only carries random ones. Substitute values at the encoding boundaries
+		// (imm8 / imm32 sign and size limits, reciprocals of divisors next to powers of two) and compare the three executors again.
+		if (allOk && (ki % 2 == 0)) {
+			static const uint32_t edgeImm[] = { 0, 1, 0x7f, 0x80, 0x81, 0xff, 0x100, 0x7fff, 0x8000, 0xffff, 0x10000, 0x7fffffff, 0x80000000u, 0x80000001u, 0xffffff7fu, 0xffffff80u, 0xffffff81u, 0xffffffffu, 0xfffffffeu, 0x55555555u, 0xaaaaaaaau };
+			static const uint32_t edgeDiv[] = { 3, 5, 0x7fffffffu, 0x80000001u, 0x80000003u, 0xffffffffu, 0xfffffffdu, 0x10001u, 0xffff, 0x40000001u, 0xc0000001u, 0x81u, 0xff };
+			for (unsigned round = 0; round < sizeof edgeImm / sizeof edgeImm[0]; ++round) {
+				randomx::SuperscalarProgramList ed = progs; std::vector<uint64_t> rcp2; std::vector<mdl::SsProgram> mps(8);
+				unsigned nthImm = 0, nthDiv = 0;
+				for (int q = 0; q < 8; ++q) for (unsigned j = 0; j < ed[q].getSize(); ++j) {
+					auto& ins = ed[q](j);
+					if (ins.opcode >= 5 && ins.opcode <= 10) ins.setImm32(edgeImm[(round + nthImm++) % (sizeof edgeImm / sizeof edgeImm[0])]); // IADD_C7..IXOR_C9
+					else if (ins.opcode == 13) ins.setImm32(edgeDiv[(round + nthDiv++) % (sizeof edgeDiv / sizeof edgeDiv[0])]);
+					mps[q].ins.push_back({ ins.opcode, ins.dst, ins.src, ins.mod, ins.getImm32() });
+					if (ins.opcode == 13) { uint64_t r = randomx_reciprocal(ins.getImm32()); ins.setImm32((uint32_t)rcp2.size()); rcp2.push_back(r); }
+				}
+				{ ip::Api s("generateSuperscalarHash"); jit->enableWriting(); jit->generateSuperscalarHash(ed, rcp2); jit->enableExecution(); }
+				uint8_t* entry = jit->getCode() + 16384 + sshInitSize;
+				for (int t = 0; t < 3; ++t) {
+					uint64_t in[8]; for (auto& x : in) x = t == 0 ? rng.next() : t == 1 ? ~0ULL : (rng.next() & 0xffffffffULL);
+					uint64_t a[8], b[8], c[8]; memcpy(a, in, 64); memcpy(b, in, 64); memcpy(c, in, 64);
+					{ ip::Api s("executeSuperscalar"); for (auto& p : ed) randomx::executeSuperscalar(a, p, &rcp2); }
+					{ ip::Api s("native-superscalar"); rxv_ss_call(entry, b, zero); }
+					for (auto& mp : mps) mdl::executeSuperscalar(c, mp);
+					if (memcmp(a, b, 64)) R.violation("C09:differential:interpreter-vs-native:edge-immediates", "{\"key\":\"" + keyHex + "\",\"round\":" + std::to_string(round) + ",\"input\":\"" + hex(in, 64) + "\",\"interpreter\":\"" + hex(a, 64) + "\",\"native\":\"" + hex(b, 64) + "\"}");
+					if (memcmp(a, c, 64)) R.violation("C09:model:interpreter-vs-spec-semantics:edge-immediates", "{\"key\":\"" + keyHex + "\",\"round\":" + std::to_string(round) + ",\"input\":\"" + hex(in, 64) + "\"}");
+					R.count("edge_immediate_executions");
+				}
+			}
+		}
 		R.nontrivial(fnv1a(key.data(), key.size()) ^ (key.size() << 56));
 		if (ki < 2) R.sample("{\"key\":\"" + keyHex + "\",\"sizes\":[" + [&] { std::string s; for (int i = 0; i < 8; ++i) s += (i ? "," : "") + std::to_string(progs[i].getSize()); return s; }() + "],\"program0_head\":" + progJson(progs[0], 6) + "}");
 		R.clearCase();
